@@ -111,6 +111,17 @@ def gen_run(seed, tier, i):
         st = s_struct.choice(pool) if reuse_structure else fresh_structure()
         backend = s_cfg.choices(enabled, ew)[0]
         op = s_ops.choice(ops)
+        if s_struct.random() < 0.05:
+            # a clique of 10-14 stems: FCFS needs two-digit levels.  The stub cannot solve that model within
+            # its node cap, so pair it only with behaviours in which the solver fails before solving.
+            st = structures.gen_big_ladder(s_struct)
+            backend, kind = s_fault.choice([("sim-api", "raise_before"), ("cbc-wrapper", "not_executable"),
+                                            ("cbc-wrapper", "exit_nonzero"), ("highs-wrapper", "not_executable"),
+                                            ("highs-wrapper", "exit_minus1"), ("none", "ok")])
+            op = s_ops.choice(["dot_bracket", "elements", "without_pseudoknots"])
+            steps.append({"triples": st["triples"], "op": op, "via": "property", "backend": backend,
+                          "fault": {"kind": kind, "tie": 0, "partial": 0}, "default": "none"})
+            continue
         via = "property" if op != "dot_bracket" else s_ops.choice(["property", "property", "argument"])
         faulty = s_fault.random() < fault_rate and (stop_after is None or k < stop_after)
         kinds = KINDS_OF[backend]
